@@ -6,6 +6,11 @@ class InjectedWriteFailure(Exception):
     interprets as 'node body missing')."""
 
 
+class InjectedKeyError(KeyError):
+    """A database write that fails with a KeyError subclass -- the one exception class the library handles internally
+    (it means 'node body missing' on reads); a failing WRITE must not be mistaken for that."""
+
+
 class LogDict(dict):
     """dict that logs reads / writes / deletes and can fail the n-th write."""
 
@@ -16,13 +21,15 @@ class LogDict(dict):
         self.writes = []
         self.dels = []
         self.fail_at = None  # index (0-based) of the write that raises, counted from arm()
+        self.fail_exc = InjectedWriteFailure
         self.nwrites = 0
         self.frozen = False  # when True any mutation is an error (ScratchDB checks)
         self.mutations_while_frozen = 0
 
-    def arm(self, n):
+    def arm(self, n, exc=None):
         self.fail_at = n
         self.nwrites = 0
+        self.fail_exc = exc or InjectedWriteFailure
 
     def reset_log(self):
         self.reads = []
@@ -52,7 +59,9 @@ class LogDict(dict):
             self.mutations_while_frozen += 1
         if self.fail_at is not None and self.nwrites == self.fail_at:
             self.nwrites += 1
-            raise InjectedWriteFailure(f"write #{self.fail_at} failed")
+            if self.fail_exc is InjectedKeyError:
+                raise InjectedKeyError(k)
+            raise self.fail_exc(f"write #{self.fail_at} failed")
         self.nwrites += 1
         self.writes.append((k, v))
         dict.__setitem__(self, k, v)
